@@ -45,6 +45,8 @@ func ehID(s Step) string {
 		return "eh_default"
 	case "www":
 		return "eh_www"
+	case "wwwr":
+		return "eh_www_realm"
 	case "redirect":
 		res := "ok"
 		if len(s.Out) > 0 && s.Out[0] == "fail" {
@@ -177,19 +179,7 @@ func baseConfig(c Case, trusted []string) map[string]any {
 		}
 	}
 
-	with := map[string]any{}
-
-	names := map[string]string{
-		"authn": "authentication_error", "authz": "authorization_error", "comm": "communication_error",
-		"arg": "argument_error", "norule": "no_rule_error", "internal": "internal_error",
-	}
-	for k, v := range c.Overrides {
-		if n, ok := names[k]; ok && v > 0 {
-			with[n] = map[string]any{"code": v}
-		}
-	}
-
-	svc := map[string]any{"respond": map[string]any{"verbose": c.Verbose, "with": with}}
+	svc := map[string]any{"respond": map[string]any{"verbose": c.Verbose}}
 	if trusted != nil {
 		svc["trusted_proxies"] = trusted
 	}
@@ -264,6 +254,23 @@ func WWWMutator(conf *config.Configuration) *config.Configuration {
 	return conf
 }
 
+// overridesMutator applies the status overrides of the case. They are not written to the
+// configuration file because the schema names the precondition override "precondition_error" while
+// the loader reads "argument_error".
+func overridesMutator(c Case, conf *config.Configuration) *config.Configuration {
+	for _, svc := range []*config.ServiceConfig{&conf.Serve.Decision, &conf.Serve.Proxy} {
+		w := &svc.Respond.With
+		w.AuthenticationError.Code = c.Overrides["authn"]
+		w.AuthorizationError.Code = c.Overrides["authz"]
+		w.CommunicationError.Code = c.Overrides["comm"]
+		w.ArgumentError.Code = c.Overrides["arg"]
+		w.NoRuleError.Code = c.Overrides["norule"]
+		w.InternalError.Code = c.Overrides["internal"]
+	}
+
+	return conf
+}
+
 type Options struct {
 	Workers int
 	Trusted []string
@@ -285,7 +292,7 @@ func StartBed(proto Case, up *client.Upstream, opts Options) (*Bed, error) {
 	a, err := app.Start(app.Options{
 		Mode:             proto.Entry,
 		Config:           baseConfig(proto, opts.Trusted),
-		ConfigMutator:    WWWMutator,
+		ConfigMutator:    func(conf *config.Configuration) *config.Configuration { return overridesMutator(proto, WWWMutator(conf)) },
 		FactoryDecorator: scripted.Decorator(rec),
 	})
 	if err != nil {
@@ -365,7 +372,7 @@ func (b *Bed) Request(c Case) (client.Request, error) {
 	}
 
 	add := func(s Step) {
-		if s.N != "" && len(s.Out) > 0 && s.Type != "redirect" && s.Type != "default" && s.Type != "www" {
+		if s.N != "" && len(s.Out) > 0 && (s.Kind != "eh" || s.Type == "scripted") {
 			r.Headers = append(r.Headers, [2]string{"X-V-" + s.N, OutcomeHeader(s.Out)})
 		}
 
@@ -410,7 +417,7 @@ func (b *Bed) Exec(c *Case) error {
 		Exec:     b.Rec.Take(c.ID),
 		Status:   o.Status,
 		Location: o.HeaderFirst("Location") != "",
-		WWW:      o.HeaderFirst("WWW-Authenticate") != "",
+		WWW:      wwwOK(*c, o.HeaderFirst("WWW-Authenticate")),
 		RPCErr:   o.RPCError,
 		Body:     o.Body != "",
 		CT:       o.HeaderFirst("Content-Type"),
@@ -426,6 +433,25 @@ func (b *Bed) Exec(c *Case) error {
 	c.Obs = obs
 
 	return nil
+}
+
+// wwwOK reports whether the WWW-Authenticate header names the realm configured for the first
+// www_authenticate handler of the case (any non-empty challenge if the case has none).
+func wwwOK(c Case, header string) bool {
+	if header == "" {
+		return false
+	}
+
+	for _, s := range c.EH {
+		switch s.Type {
+		case "www":
+			return strings.Contains(header, "Please authenticate")
+		case "wwwr":
+			return strings.Contains(header, "verif")
+		}
+	}
+
+	return true
 }
 
 // RunCases executes all cases on as many beds as needed and writes them to the trace.
